@@ -117,6 +117,35 @@ pub fn parse(lines: &[String]) -> Result<Vec<Item>, ErrKind> {
     }
 }
 
+/// Like `parse`, but a prefix-less multi-line directive line is skipped instead of ending the parse
+/// (what clean mode does with it): every directive that any mode could ever execute is listed.
+pub fn parse_lenient(lines: &[String]) -> Vec<Item> {
+    let mut items = vec![];
+    let mut cur: Option<Dir> = None;
+    for l in lines {
+        if let Some(d) = cur.as_mut() {
+            if let Some(a) = continues(d, l) {
+                d.args.push(a);
+                continue;
+            }
+            items.push(Item::Dir(cur.take().unwrap()));
+        }
+        match detect(l) {
+            Some(d) => {
+                if multi(&d.name) && d.pre.is_empty() {
+                    continue;
+                }
+                cur = Some(d)
+            }
+            None => items.push(Item::Text(l.clone())),
+        }
+    }
+    if let Some(d) = cur {
+        items.push(Item::Dir(d));
+    }
+    items
+}
+
 /// Like `parse`, but also returns the items that precede a prefix-less multi-line directive: the
 /// real preprocessor has executed those (including their commands) before it meets the error.
 pub fn parse_partial(lines: &[String]) -> (Vec<Item>, Option<ErrKind>) {
